@@ -399,15 +399,15 @@ func lookGo(name string) (string, error) {
 // ---------------------------------------------------------------------------------
 
 type rewriter struct {
-	fset      *token.FileSet
-	info      *types.Info
-	file      *ast.File
-	rel       string
-	changed   bool
-	tmp       int
-	skip      map[ast.Node]bool
-	inner     map[ast.Node]ast.Stmt // our wrapping block -> the statement a label must stay on
-	sites     []Site
+	fset    *token.FileSet
+	info    *types.Info
+	file    *ast.File
+	rel     string
+	changed bool
+	tmp     int
+	skip    map[ast.Node]bool
+	inner   map[ast.Node]ast.Stmt // our wrapping block -> the statement a label must stay on
+	sites   []Site
 }
 
 func (rw *rewriter) refuse(n ast.Node, what string) {
